@@ -73,7 +73,8 @@ USER = {c.__name__: c for c in (UserErr, UserValueErr, UserKeyErr, UserKwOnly, U
                                 UserRewrite, UserBase, UserFlaky)}
 
 BASE_ONLY = ('KeyboardInterrupt', 'SystemExit', 'GeneratorExit', 'UserBase')
-GLOM_USER = ('UGlomErr', 'UGlomErrInit', 'UGlomKwOnly', 'UGlomArity', 'UGlomMixed', 'UGlomRewrite')
+GLOM_USER = ('UGlomErr', 'UGlomErrInit', 'UGlomKwOnly', 'UGlomArity', 'UGlomMixed', 'UGlomRewrite',
+             'UGlomLookup')
 NOT_REBUILDABLE = ('UserKwOnly', 'UserArity', 'UGlomKwOnly', 'UGlomArity')
 
 ALL = tuple(BUILTIN) + tuple(USER) + GLOM_USER
@@ -115,12 +116,20 @@ def bind(G):
     class UGlomMixed(GE, ValueError):
         pass
 
+    class UGlomLookup(GE):
+        """the constructor looks its argument up in a table: rebuilding from args raises KeyError"""
+        TABLE = {'E1': 'first failure'}
+
+        def __init__(self, code):
+            super().__init__(self.TABLE[code.split(':')[0] if isinstance(code, str) and code.startswith('E1') else code])
+            self.code = code
+
     class UGlomRewrite(GE):
         def __init__(self, a):
             super().__init__(a + a)
 
     d = {c.__name__: c for c in (UGlomErr, UGlomErrInit, UGlomKwOnly, UGlomArity, UGlomMixed,
-                                UGlomRewrite)}
+                                UGlomRewrite, UGlomLookup)}
     for c in d.values():
         c.__qualname__ = c.__name__
     if len(_BOUND) > 64:
@@ -156,6 +165,8 @@ class Catalogue:
             e = c(code=msg)
         elif name in ('UserArity', 'UGlomArity'):
             e = c(msg, 'b')
+        elif name == 'UGlomLookup':
+            e = c('E1')
         elif name == 'UserFlaky':
             e = c(msg, extra='x') if desc.get('variant') == 'bad' else c(msg)
         elif name == 'SystemExit':
